@@ -123,6 +123,9 @@ def observe_list(l, op, src, keep):
     raise ValueError(k)
 
 
+_RETRIES = 0
+
+
 def run_history(src, ops, limit=2):
     """(an observation on a list of <= 5 items takes microseconds; `limit` only guards against a hang. A machine that is busy
     elsewhere can stall a worker for more than 2 s, so a history with a timeout in it is run again with limit=60 before it is
@@ -156,7 +159,9 @@ def want_history(src, ops):
 def o_history(inp):
     src, ops = inp["src"], inp["ops"]
     got, want = run_history(src, ops), want_history(src, ops)
-    if "timeout" in got:
+    global _RETRIES
+    if "timeout" in got and _RETRIES < 3:      # (per worker process: a change that makes everything hang is not retried for ever)
+        _RETRIES += 1
         got = run_history(src, ops, limit=60)
     if got == want:
         # observations never change the sequence the lazy list denotes
